@@ -1,23 +1,32 @@
 (* Property C09 "a stale handle can never commit; it is refreshed and its retry
    succeeds" for the schedules of the stack protocol model (Model/StackProto.v).
 
-   The statement "c09_ok holds of every trace" is FALSE in the model; the
-   counterexamples are at the end of this file (checked by vm_compute):
-     - attempts = 0: reload gives up at once, the stale handle is not refreshed;
-     - an Add on a handle after its Close (without a new Open) returns RNoStack
-       while the oracle still remembers what the handle held before the Close;
-     - a compaction paused (or crashed) between its commit and the unlinking of
-       its inputs: the stale handle's reload unlinks those files itself, so the
-       directory is not what it was at the call.
-   The theorem proved here has the three hypotheses that exclude exactly these:
-   [1 <= attempts], [reopen_before_add] on the scripts, and the trace
-   precondition [c09_precond]: at the call of an Add none of the tables the
-   handle holds is both dropped from tables.list and still on disk.
+   Two readings of "the directory is unchanged by the failed Add":
+     - [c09_ok] (strict, snap_eqb): still FALSE for all traces.  What remains
+       after the repairs of the model (an Open that loses every race fails) and
+       of the predicate (a Close / a failed Open makes the oracle forget the
+       handle) is: a compaction paused (or crashed) between its commit and the
+       unlinking of its inputs; the stale handle's reload unlinks those files
+       itself ([Counterexamples.ce_paused_compaction], [ce_crashed_compaction]).
+       [c09_all_traces_strong] has the one hypothesis that excludes exactly this,
+       the trace precondition [c09_precond]: at the call of an Add none of the
+       tables the handle holds is both dropped from tables.list and still on disk.
+       The former hypotheses are gone: reopen_before_add because the oracle's
+       memory of a handle now always is the names of the stack the handle holds
+       ([J]); [1 <= attempts] because with no attempt an Open fails, so no handle
+       ever holds a stack ([run_att0]).  [c09_all_traces] is the same statement
+       with the (unused) hypothesis [1 <= attempts], as requested.
+     - [c09_ok_gc] (snap_gc: tables.list unchanged, nothing new, only unlisted
+       table files went away): [c09_gc_all_traces_strong] holds of EVERY trace;
+       [c09_gc_all_traces] is the requested statement (with [1 <= attempts]).
 
    Structure: 1. sequential execution [sexec] of a program against [apply_req];
    an undisturbed call in a trace is such an execution ([alone_run]).
-   2. symbolic execution of [add] in the stale and in the up-to-date case.
-   3. the handle state the oracle tracks; the run invariant; the theorem. *)
+   2. symbolic execution of [add] in the stale case (strictly, and up to the
+   collection of unlisted tables [gc_ok]) and in the up-to-date case.
+   3. a loop [c09g_loop] generic in the comparison of directories, equal to
+   c09_loop / c09_loop_gc; the precondition.  4. the run invariant.  5. the
+   clause of the oracle; the theorems.  6. counterexamples. *)
 From Coq Require Import List NArith Arith Bool Lia.
 From RT Require Import Model.StackTrace Model.Segments Model.StackProto.
 From RT Require Import Proofs.LockProofs Proofs.StackInvProofs Proofs.ResidueProofs.
@@ -247,6 +256,97 @@ Proof.
     eapply Hfail; [|exact H]. apply fs_unlock_eq. exact El.
 Qed.
 
+(* ---------------- the same up to the collection of unlisted tables ---------------- *)
+
+(* [s'] is [s] with some table files that tables.list does not name unlinked *)
+Definition gc_ok (s s' : fs) : Prop :=
+  f_list s' = f_list s /\ f_lock s' = f_lock s /\ f_tlocks s' = f_tlocks s /\ f_tmps s' = f_tmps s /\
+  incl (f_tabs s') (f_tabs s) /\
+  (forall x, In x (f_tabs s) -> In x (f_tabs s') \/ ~ In (fst x) (listed_fs s)).
+
+Lemma gc_ok_refl : forall s, gc_ok s s.
+Proof. intro s. repeat split; auto using incl_refl. Qed.
+
+Lemma gc_ok_del : forall s s1 n,
+  gc_ok s s1 -> ~ In n (listed_fs s) ->
+  gc_ok s {| f_list := f_list s1; f_lock := f_lock s1; f_tabs := del n (f_tabs s1); f_tlocks := f_tlocks s1;
+             f_tmps := f_tmps s1; f_next_tab := f_next_tab s1; f_next_tmp := f_next_tmp s1 |}.
+Proof.
+  intros s s1 n (A & B & C & D & E & F) Hn. unfold gc_ok. cbn [f_list f_lock f_tabs f_tlocks f_tmps].
+  split; [exact A|]. split; [exact B|]. split; [exact C|]. split; [exact D|]. split.
+  - intros x Hx. unfold del in Hx. apply filter_In in Hx as [Hx _]. apply E. exact Hx.
+  - intros x Hx. destruct (F x Hx) as [Y|Y]; [|right; exact Y].
+    destruct (Nat.eqb_spec n (fst x)) as [Eq|Ne].
+    + right. rewrite <- Eq. exact Hn.
+    + left. unfold del. apply filter_In. split; [exact Y|]. apply negb_true_iff. apply Nat.eqb_neq. exact Ne.
+Qed.
+
+Lemma exec_remove_any_gc : forall so h s0 fuel cands s E u s',
+  (forall n, In n cands -> ~ In n (listed_fs s0)) -> gc_ok s0 s ->
+  sexec so h (remove_any fuel cands) s E u s' -> gc_ok s0 s'.
+Proof.
+  intros so h s0. induction fuel as [|f IH]; intros cands s E u s' Hno Hgc H.
+  - destruct cands; cbn in H; destruct H as (_ & _ & ->); exact Hgc.
+  - destruct cands as [|c0 cs]; [cbn in H; destruct H as (_ & _ & ->); exact Hgc|].
+    cbn [remove_any pbind op sexec] in H. destruct H as (c & s1 & rs & fe & E' & Hap & _ & H).
+    cbn [apply_req] in Hap.
+    match type of Hap with context [lookup ?x (f_tabs s)] => set (n := x) in * end.
+    assert (Hn : In n (c0 :: cs)).
+    { unfold n. destruct c as [c1|]; [|left; reflexivity].
+      destruct (mem_nat c1 (c0 :: cs)) eqn:Em; [apply mem_nat_In; exact Em|left; reflexivity]. }
+    assert (Hsub : forall x, In x (filter (fun y => negb (Nat.eqb y n)) (c0 :: cs)) -> ~ In x (listed_fs s0)).
+    { intros x Hx. apply filter_In in Hx as [Hx _]. apply Hno. exact Hx. }
+    destruct (lookup n (f_tabs s)); inversion Hap; subst s1 rs fe; clear Hap.
+    + eapply IH; [exact Hsub| |exact H]. apply gc_ok_del; [exact Hgc|apply Hno; exact Hn].
+    + eapply IH; [exact Hsub|exact Hgc|exact H].
+Qed.
+
+Lemma exec_reload_gc : forall so h a old s E m st s',
+  (forall n, In n (listed_fs s) -> lookup n (f_tabs s) <> None) ->
+  sexec so h (reload (S a) true old) s E (m, st) s' -> gc_ok s s' /\ mnames m = listed_fs s.
+Proof.
+  intros so h a old s E m st s' Hex H.
+  cbn [reload pbind op sexec] in H. destruct H as (c & s1 & rs & fe & E' & Hap & _ & H).
+  cbn [apply_req] in Hap. inversion Hap; subst s1 rs fe. clear Hap.
+  rewrite lnames_list in H.
+  apply sexec_bind in H as (o & s2 & E1 & E2 & H1 & H2 & _).
+  destruct (exec_open_all _ _ _ _ _ _ _ _ _ Hex H1) as (-> & m' & -> & Hm'). cbn [mnames map rev app] in Hm'.
+  apply sexec_bind in H2 as (u & s3 & E3 & E4 & H3 & H4 & _).
+  apply (exec_remove_any_gc so h s) in H3; [|intros n Hn|apply gc_ok_refl].
+  - cbn [sexec] in H4. destruct H4 as (_ & E4' & ->). inversion E4'; subst. auto.
+  - apply filter_In in Hn as [_ Hn2]. apply negb_true_iff in Hn2. apply mem_nat_false in Hn2. exact Hn2.
+Qed.
+
+Lemma exec_add_stale_gc : forall so h a tx auto mm s E m r s',
+  (forall n, In n (listed_fs s) -> lookup n (f_tabs s) <> None) ->
+  list_nat_eqb (mnames mm) (listed_fs s) = false ->
+  sexec so h (add (S a) (KAdd tx) auto mm) s E (m, r) s' ->
+  r = RLockFailure /\ gc_ok s s' /\ mnames m = listed_fs s.
+Proof.
+  intros so h a tx auto mm s E m r s' Hex Hst H.
+  assert (Hfail : forall E0 s0, s0 = s ->
+            sexec so h (do! rl := reload (S a) true mm in Ret (fst rl, RLockFailure)) s0 E0 (m, r) s' ->
+            r = RLockFailure /\ gc_ok s s' /\ mnames m = listed_fs s).
+  { intros E0 s0 -> H0. apply sexec_bind in H0 as ([m1 st] & s1 & E1 & E2 & H1 & H2 & _).
+    destruct (exec_reload_gc _ _ _ _ _ _ _ _ _ Hex H1) as [Hgc Hm].
+    cbn [sexec fst] in H2. destruct H2 as (_ & E2' & ->). inversion E2'; subst. auto. }
+  unfold add in H. cbn [pbind op sexec] in H. destruct H as (c & s1 & rs & fe & E' & Hap & _ & H).
+  cbn [apply_req] in Hap. destruct (f_lock s) as [o|] eqn:El; inversion Hap; subst s1 rs fe; clear Hap.
+  - eapply Hfail; [reflexivity|exact H].
+  - cbn [pbind op sexec] in H. destruct H as (c1 & s2 & rs & fe & E2 & Hap & _ & H).
+    cbn [apply_req f_list] in Hap. inversion Hap; subst s2 rs fe. clear Hap.
+    rewrite lnames_list in H.
+    assert (Hneq : names_eqb (listed_fs s) (mnames mm) = false).
+    { unfold names_eqb. destruct (list_nat_eqb (listed_fs s) (mnames mm)) eqn:X; [|reflexivity].
+      apply list_nat_eqb_eq in X. rewrite X, list_nat_eqb_refl in Hst. discriminate. }
+    change (match f_list s with Some l => l | None => [] end) with (listed_fs s) in H.
+    rewrite Hneq in H. cbn [negb pbind op sexec] in H.
+    destruct H as (c2 & s3 & rs & fe & E3 & Hap & _ & H).
+    cbn [apply_req f_lock f_list f_tabs f_tlocks f_tmps f_next_tab f_next_tmp] in Hap.
+    inversion Hap; subst s3 rs fe. clear Hap.
+    eapply Hfail; [|exact H]. apply fs_unlock_eq. exact El.
+Qed.
+
 (* an up-to-date handle and a free lock: the Add returns success *)
 Lemma leaves_true : forall A (p : prog A), leaves p (fun _ => True).
 Proof. induction p as [a|q k IH]; cbn [leaves]; auto. Qed.
@@ -281,55 +381,25 @@ Proof.
 Qed.
 
 (* ------------------------------------------------------------------ *)
-(* 3. what the oracle remembers of a handle; the hypotheses            *)
+(* 3. the oracle, generic in the comparison of directories             *)
 (* ------------------------------------------------------------------ *)
 
-Inductive hst := Fresh | Opened | Closed.
-
-Definition hnext (σ : hst) (o : apiop) : hst :=
-  match o with
-  | AOpen => Opened
-  | AClose => match σ with Fresh => Fresh | _ => Closed end
-  | _ => σ
-  end.
-
-Definition add_allowed (σ : hst) (o : apiop) : bool :=
-  match o, σ with AAdd _ _, Closed => false | _, _ => true end.
-
-Fixpoint script_ok (σ : hst) (s : list apiop) : bool :=
-  match s with [] => true | o :: t => add_allowed σ o && script_ok (hnext σ o) t end.
-
-(* hypothesis on a script: no Add on a handle that was closed and not opened again *)
-Definition reopen_before_add (s : list apiop) : bool := script_ok Fresh s.
+Definition drop (h : nat) (mems : list (nat * list nat)) : list (nat * list nat) :=
+  filter (fun x => negb (Nat.eqb h (fst x))) mems.
 
 Definition heldf (h : nat) (mems : list (nat * list nat)) : option (list nat) :=
   fold_right (fun x acc => if Nat.eqb h (fst x) then Some (snd x) else acc) None mems.
 
 Definition mems_upd (h : nat) (names : list nat) (mems : list (nat * list nat)) : list (nat * list nat) :=
-  (h, names) :: filter (fun x => negb (Nat.eqb h (fst x))) mems.
+  (h, names) :: drop h mems.
 
-(* hypothesis on the trace: at the call of an Add, none of the tables the handle
-   holds is both dropped from tables.list and still on disk *)
-Definition held_gone (cur : snapshot) (names : list nat) : bool :=
-  forallb (fun n => mem_nat n (listed cur) || negb (existsb (path_eqb (PT n)) (sn_files cur))) names.
-
-Fixpoint c09_pre (cur : snapshot) (mems : list (nat * list nat)) (tr : list event) : bool :=
-  match tr with
-  | [] => true
-  | ESnap s :: t => c09_pre s mems t
-  | EMem h names _ :: t => c09_pre cur (mems_upd h names mems) t
-  | ECall h (AAdd _ _) :: t =>
-      (match heldf h mems with Some names => held_gone cur names | None => true end) && c09_pre cur mems t
-  | _ :: t => c09_pre cur mems t
-  end.
-Definition c09_precond (tr : list event) : bool := c09_pre snap0 [] tr.
-
-Definition c09_clause (h : nat) (cur : snapshot) (held : option (list nat)) (t : list event) : bool :=
+Definition c09_clause (cmp : snapshot -> snapshot -> bool) (h : nat) (cur : snapshot)
+           (held : option (list nat)) (t : list event) : bool :=
   match held, alone_until_ret h t [] with
   | Some names, Some (evs, r, rest) =>
       if negb (list_nat_eqb names (listed cur)) then
         (match r with RLockFailure => true | _ => false end)
-        && snap_eqb (last_snap evs cur) cur
+        && cmp (last_snap evs cur) cur
         && (match rest with
             | EMem h' names' _ :: _ => Nat.eqb h h' && list_nat_eqb names' (listed cur)
             | _ => false
@@ -339,135 +409,182 @@ Definition c09_clause (h : nat) (cur : snapshot) (held : option (list nat)) (t :
   | _, _ => true
   end.
 
+Fixpoint c09g_loop (cmp : snapshot -> snapshot -> bool) (cur : snapshot) (mems : list (nat * list nat))
+         (tr : list event) : bool :=
+  match tr with
+  | [] => true
+  | ESnap s :: t => c09g_loop cmp s mems t
+  | EMem h names _ :: t => c09g_loop cmp cur (mems_upd h names mems) t
+  | ERet h AClose _ :: t => c09g_loop cmp cur (drop h mems) t
+  | ERet h AOpen RErr :: t => c09g_loop cmp cur (drop h mems) t
+  | ECall h (AAdd tx _) :: t => c09_clause cmp h cur (heldf h mems) t && c09g_loop cmp cur mems t
+  | _ :: t => c09g_loop cmp cur mems t
+  end.
+
+Lemma c09g_strict : forall tr cur mems, c09g_loop snap_eqb cur mems tr = c09_loop cur mems tr.
+Proof.
+  induction tr as [|e t IH]; intros cur mems; [reflexivity|].
+  destruct e as [h op p r names|s|h op|h op r|h names closed|h|]; try (cbn; apply IH).
+  - destruct op; try (cbn; apply IH).
+    change (c09_clause snap_eqb h cur (heldf h mems) t && c09g_loop snap_eqb cur mems t
+            = c09_clause snap_eqb h cur (heldf h mems) t && c09_loop cur mems t).
+    rewrite IH. reflexivity.
+  - destruct op; try (cbn; apply IH). destruct r; cbn; apply IH.
+Qed.
+
+Lemma c09g_gc : forall tr cur mems, c09g_loop snap_gc cur mems tr = c09_loop_gc cur mems tr.
+Proof.
+  induction tr as [|e t IH]; intros cur mems; [reflexivity|].
+  destruct e as [h op p r names|s|h op|h op r|h names closed|h|]; try (cbn; apply IH).
+  - destruct op; try (cbn; apply IH).
+    change (c09_clause snap_gc h cur (heldf h mems) t && c09g_loop snap_gc cur mems t
+            = c09_clause snap_gc h cur (heldf h mems) t && c09_loop_gc cur mems t).
+    rewrite IH. reflexivity.
+  - destruct op; try (cbn; apply IH). destruct r; cbn; apply IH.
+Qed.
+
+(* hypothesis on the trace (for the strict reading): at the call of an Add, none of the
+   tables the handle holds is both dropped from tables.list and still on disk *)
+Definition held_gone (cur : snapshot) (names : list nat) : bool :=
+  forallb (fun n => mem_nat n (listed cur) || negb (existsb (path_eqb (PT n)) (sn_files cur))) names.
+
+Fixpoint c09_pre (P : snapshot -> list nat -> bool) (cur : snapshot) (mems : list (nat * list nat))
+         (tr : list event) : bool :=
+  match tr with
+  | [] => true
+  | ESnap s :: t => c09_pre P s mems t
+  | EMem h names _ :: t => c09_pre P cur (mems_upd h names mems) t
+  | ERet h AClose _ :: t => c09_pre P cur (drop h mems) t
+  | ERet h AOpen RErr :: t => c09_pre P cur (drop h mems) t
+  | ECall h (AAdd _ _) :: t =>
+      (match heldf h mems with Some names => P cur names | None => true end) && c09_pre P cur mems t
+  | _ :: t => c09_pre P cur mems t
+  end.
+Definition c09_precond (tr : list event) : bool := c09_pre held_gone snap0 [] tr.
+
+Lemma c09_pre_true : forall tr cur mems, c09_pre (fun _ _ => true) cur mems tr = true.
+Proof.
+  induction tr as [|e t IH]; intros cur mems; [reflexivity|].
+  destruct e as [h op p r names|s|h op|h op r|h names closed|h|]; try (cbn; apply IH).
+  - destruct op; try (cbn; apply IH). cbn [c09_pre]. rewrite IH. destruct (heldf h mems); reflexivity.
+  - destruct op; try (cbn; apply IH). destruct r; cbn; apply IH.
+Qed.
+
+Section Generic.
+Variable cmp : snapshot -> snapshot -> bool.
+Variable P : snapshot -> list nat -> bool.
+
 Lemma c09_call : forall cur mems h tx auto t,
-  c09_loop cur mems (ECall h (AAdd tx auto) :: t) = c09_clause h cur (heldf h mems) t && c09_loop cur mems t.
+  c09g_loop cmp cur mems (ECall h (AAdd tx auto) :: t) = c09_clause cmp h cur (heldf h mems) t && c09g_loop cmp cur mems t.
 Proof. reflexivity. Qed.
 
 Lemma c09_pre_call : forall cur mems h tx auto t,
-  c09_pre cur mems (ECall h (AAdd tx auto) :: t) =
-  (match heldf h mems with Some names => held_gone cur names | None => true end) && c09_pre cur mems t.
+  c09_pre P cur mems (ECall h (AAdd tx auto) :: t) =
+  (match heldf h mems with Some names => P cur names | None => true end) && c09_pre P cur mems t.
 Proof. reflexivity. Qed.
 
-Lemma c09_call_other : forall cur mems h o t, (forall tx auto, o <> AAdd tx auto) ->
-  c09_loop cur mems (ECall h o :: t) = c09_loop cur mems t /\ c09_pre cur mems (ECall h o :: t) = c09_pre cur mems t.
-Proof. intros cur mems h o t H. destruct o; try (split; reflexivity). exfalso. eapply H. reflexivity. Qed.
-
-Definition mems_fin (h : nat) (m : option mem) (mems : list (nat * list nat)) : list (nat * list nat) :=
-  match m with Some mm => mems_upd h (mnames mm) mems | None => mems end.
+(* what the oracle remembers after the events of a return *)
+Definition mems_fin (h : nat) (o : apiop) (m : option mem) (r : apires) (mems : list (nat * list nat)) :=
+  let mems1 := match o, r with
+               | AClose, _ => drop h mems
+               | AOpen, RErr => drop h mems
+               | _, _ => mems
+               end in
+  match m with Some mm => mems_upd h (mnames mm) mems1 | None => mems1 end.
 
 Lemma c09_finish : forall cur mems h o m r rest,
-  c09_loop cur mems (finish_events h o m r ++ rest) = c09_loop cur (mems_fin h m mems) rest /\
-  c09_pre cur mems (finish_events h o m r ++ rest) = c09_pre cur (mems_fin h m mems) rest.
-Proof. intros. unfold finish_events. destruct m; split; reflexivity. Qed.
+  c09g_loop cmp cur mems (finish_events h o m r ++ rest) = c09g_loop cmp cur (mems_fin h o m r mems) rest /\
+  c09_pre P cur mems (finish_events h o m r ++ rest) = c09_pre P cur (mems_fin h o m r mems) rest.
+Proof. intros. unfold finish_events, mems_fin. destruct o, r, m; split; reflexivity. Qed.
 
 Lemma c09_req : forall cur mems h q rs fe s' rest,
-  c09_loop cur mems (req_event h q rs fe :: ESnap s' :: rest) = c09_loop s' mems rest /\
-  c09_pre cur mems (req_event h q rs fe :: ESnap s' :: rest) = c09_pre s' mems rest.
+  c09g_loop cmp cur mems (req_event h q rs fe :: ESnap s' :: rest) = c09g_loop cmp s' mems rest /\
+  c09_pre P cur mems (req_event h q rs fe :: ESnap s' :: rest) = c09_pre P s' mems rest.
 Proof. intros. destruct q; split; reflexivity. Qed.
 
-Lemma heldf_upd_same : forall h names mems, heldf h (mems_upd h names mems) = Some names.
-Proof. intros. unfold mems_upd, heldf. cbn [fold_right fst snd]. rewrite Nat.eqb_refl. reflexivity. Qed.
+End Generic.
 
-Lemma heldf_upd_other : forall i h names mems, i <> h -> heldf i (mems_upd h names mems) = heldf i mems.
+Lemma heldf_drop_same : forall h mems, heldf h (drop h mems) = None.
 Proof.
-  intros i h names mems Hne. unfold mems_upd, heldf. cbn [fold_right fst snd].
-  destruct (Nat.eqb_spec i h); [contradiction|].
+  intros h mems. unfold heldf, drop. induction mems as [|[k v] mems IH]; cbn [filter fold_right fst snd]; [reflexivity|].
+  destruct (Nat.eqb_spec h k); cbn [negb fold_right fst snd]; [exact IH|].
+  destruct (Nat.eqb_spec h k); [contradiction|exact IH].
+Qed.
+
+Lemma heldf_drop_other : forall i h mems, i <> h -> heldf i (drop h mems) = heldf i mems.
+Proof.
+  intros i h mems Hne. unfold heldf, drop.
   induction mems as [|[k v] mems IH]; cbn [filter fold_right fst snd]; [reflexivity|].
   destruct (Nat.eqb_spec h k); cbn [negb fold_right fst snd].
   - subst k. destruct (Nat.eqb_spec i h); [contradiction|exact IH].
   - rewrite IH. reflexivity.
 Qed.
 
-Definition hstate_ok (σ : hst) (m : option mem) (held : option (list nat)) : Prop :=
-  match σ with
-  | Fresh => m = None /\ held = None
-  | Opened => exists mm, m = Some mm /\ held = Some (mnames mm)
-  | Closed => m = None
-  end.
+Lemma heldf_upd_same : forall h names mems, heldf h (mems_upd h names mems) = Some names.
+Proof. intros. unfold mems_upd, heldf. cbn [fold_right fst snd]. rewrite Nat.eqb_refl. reflexivity. Qed.
 
-Definition Lf (σ : hst) (o : apiop) (res : option mem * apires) : Prop :=
-  (o = AOpen /\ snd res = RErr) \/
-  match hnext σ o with Opened => fst res <> None | _ => fst res = None end.
-
-Lemma leaves_wrap : forall A (p : prog A) f (P : option mem * apires -> Prop),
-  (forall a, P (f a)) -> leaves (wrap p f) P.
-Proof. intros A p f P H. unfold wrap. apply leaves_bind. intro a. cbn [leaves]. apply H. Qed.
-
-Lemma leaves_call_prog : forall att σ o m held, hstate_ok σ m held -> leaves (call_prog att o m) (Lf σ o).
+Lemma heldf_upd_other : forall i h names mems, i <> h -> heldf i (mems_upd h names mems) = heldf i mems.
 Proof.
-  intros att σ o m held H.
-  assert (HN : m = None -> forall r, (match hnext σ o with Opened => False | _ => True end) ->
-               leaves (Ret (@None mem, r)) (Lf σ o)).
-  { intros _ r X. cbn [leaves]. right. cbn [fst]. destruct (hnext σ o); [reflexivity|destruct X|reflexivity]. }
-  destruct o.
-  - (* Open *) cbn [call_prog]. apply leaves_wrap. intros [m1 st]. cbn [fst snd]. destruct st.
-    + right. cbn. discriminate.
-    + left. auto.
-  - destruct σ; cbn [hstate_ok] in H.
-    + destruct H as [-> _]. apply HN; [reflexivity|exact I].
-    + destruct H as (mm & -> & _). cbn [call_prog]. apply leaves_wrap. intros a. right. cbn. discriminate.
-    + subst m. apply HN; [reflexivity|exact I].
-  - destruct σ; cbn [hstate_ok] in H.
-    + destruct H as [-> _]. apply HN; [reflexivity|exact I].
-    + destruct H as (mm & -> & _). cbn [call_prog leaves]. right. cbn. discriminate.
-    + subst m. apply HN; [reflexivity|exact I].
-  - destruct σ; cbn [hstate_ok] in H.
-    + destruct H as [-> _]. apply HN; [reflexivity|exact I].
-    + destruct H as (mm & -> & _). cbn [call_prog]. apply leaves_wrap. intros a. right. cbn. discriminate.
-    + subst m. apply HN; [reflexivity|exact I].
-  - destruct σ; cbn [hstate_ok] in H.
-    + destruct H as [-> _]. apply HN; [reflexivity|exact I].
-    + destruct H as (mm & -> & _). cbn [call_prog]. apply leaves_wrap. intros a. right. cbn. discriminate.
-    + subst m. apply HN; [reflexivity|exact I].
-  - destruct σ; cbn [hstate_ok] in H.
-    + destruct H as [-> _]. apply HN; [reflexivity|exact I].
-    + destruct H as (mm & -> & _). cbn [call_prog]. destruct mm.
-      * cbn [leaves]. right. cbn. discriminate.
-      * apply leaves_wrap. intros a. right. cbn. discriminate.
-    + subst m. apply HN; [reflexivity|exact I].
-  - destruct σ; cbn [hstate_ok] in H.
-    + destruct H as [-> _]. apply HN; [reflexivity|exact I].
-    + destruct H as (mm & -> & _). cbn [call_prog]. destruct mm.
-      * cbn [leaves]. right. cbn. discriminate.
-      * apply leaves_wrap. intros a. right. cbn. discriminate.
-    + subst m. apply HN; [reflexivity|exact I].
-  - (* Close *) destruct σ; cbn [hstate_ok] in H.
-    + destruct H as [-> _]. apply HN; [reflexivity|exact I].
-    + destruct H as (mm & -> & _). cbn [call_prog]. apply leaves_wrap. intros a. right. reflexivity.
-    + subst m. apply HN; [reflexivity|exact I].
-  - destruct σ; cbn [hstate_ok] in H.
-    + destruct H as [-> _]. apply HN; [reflexivity|exact I].
-    + destruct H as (mm & -> & _). cbn [call_prog leaves]. right. cbn. discriminate.
-    + subst m. apply HN; [reflexivity|exact I].
-  - destruct σ; cbn [hstate_ok] in H.
-    + destruct H as [-> _]. apply HN; [reflexivity|exact I].
-    + destruct H as (mm & -> & _). cbn [call_prog leaves]. right. cbn. discriminate.
-    + subst m. apply HN; [reflexivity|exact I].
+  intros i h names mems Hne. unfold mems_upd. change (heldf i ((h, names) :: drop h mems))
+    with (if Nat.eqb i h then Some names else heldf i (drop h mems)).
+  destruct (Nat.eqb_spec i h); [contradiction|]. apply heldf_drop_other. exact Hne.
 Qed.
 
-Lemma fin_state : forall σ o m0 m r h mems,
-  hstate_ok σ m0 (heldf h mems) -> Lf σ o (m, r) -> ret_allowed o r = true ->
-  hstate_ok (hnext σ o) m (heldf h (mems_fin h m mems)).
+(* a call leaves the handle without a stack only if it is a Close, a failed Open, or the handle had none *)
+Definition Lf (o : apiop) (m0 : option mem) (res : option mem * apires) : Prop :=
+  match fst res with
+  | Some _ => True
+  | None => o = AClose \/ (o = AOpen /\ snd res = RErr) \/ m0 = None
+  end.
+
+Lemma leaves_wrap : forall A (p : prog A) f (Q : option mem * apires -> Prop),
+  (forall a, Q (f a)) -> leaves (wrap p f) Q.
+Proof. intros A p f Q H. unfold wrap. apply leaves_bind. intro a. cbn [leaves]. apply H. Qed.
+
+Lemma leaves_call_prog : forall att o m, leaves (call_prog att o m) (Lf o m).
 Proof.
-  intros σ o m0 m r h mems H0 HL Hr. destruct HL as [[-> Er]|HL].
-  { cbn [snd] in Er. subst r. discriminate Hr. }
-  cbn [fst] in HL. destruct (hnext σ o) eqn:En; cbn [hstate_ok].
-  - subst m. cbn [mems_fin]. split; [reflexivity|].
-    assert (σ = Fresh) by (destruct o, σ; cbn in En; congruence). subst σ. apply H0.
-  - destruct m as [mm|]; [|congruence]. exists mm. split; [reflexivity|]. cbn [mems_fin]. apply heldf_upd_same.
-  - exact HL.
+  intros att o m.
+  destruct o; destruct m as [mm|]; cbn [call_prog];
+    try (cbn [leaves]; unfold Lf; cbn [fst snd]; auto; fail);
+    try (apply leaves_wrap; intros a; unfold Lf; cbn [fst snd]; auto; fail).
+  - apply leaves_wrap. intros [m1|]; unfold Lf; cbn [fst snd]; auto.
+  - apply leaves_wrap. intros [m1|]; unfold Lf; cbn [fst snd]; auto.
+  - destruct mm; [cbn [leaves]; exact I|]. apply leaves_wrap. intros a. exact I.
+  - destruct mm; [cbn [leaves]; exact I|]. apply leaves_wrap. intros a. exact I.
+Qed.
+
+Definition onames (m : option mem) : option (list nat) :=
+  match m with Some mm => Some (mnames mm) | None => None end.
+
+Lemma heldf_fin_other : forall i h o m r mems, i <> h -> heldf i (mems_fin h o m r mems) = heldf i mems.
+Proof.
+  intros i h o m r mems Hne. unfold mems_fin.
+  assert (E : heldf i (match o, r with AClose, _ => drop h mems | AOpen, RErr => drop h mems | _, _ => mems end)
+              = heldf i mems).
+  { destruct o; try reflexivity; [destruct r; try reflexivity|]; apply heldf_drop_other; exact Hne. }
+  destruct m; [rewrite heldf_upd_other by exact Hne|]; exact E.
+Qed.
+
+Lemma heldf_fin_same : forall h o m0 m r mems,
+  heldf h mems = onames m0 -> Lf o m0 (m, r) -> heldf h (mems_fin h o m r mems) = onames m.
+Proof.
+  intros h o m0 m r mems H0 HL. unfold mems_fin. destruct m as [mm|]; [apply heldf_upd_same|].
+  unfold Lf in HL. cbn [fst snd onames] in *. destruct HL as [ -> | [ [ -> -> ] | -> ] ].
+  - apply heldf_drop_same.
+  - apply heldf_drop_same.
+  - cbn [onames] in H0. destruct o; try exact H0; [destruct r; try exact H0|]; apply heldf_drop_same.
 Qed.
 
 (* ------------------------------------------------------------------ *)
-(* 4. the run invariant                                                *)
+(* 4. the run invariant: the oracle remembers the names of the stack   *)
+(*    each handle holds                                                *)
 (* ------------------------------------------------------------------ *)
 
 Definition hJ (mems : list (nat * list nat)) (i : nat) (hd : handle) : Prop :=
+  heldf i mems = onames (h_mem hd) /\
   match h_pc hd with
-  | HDead => True
-  | HIdle => exists σ, hstate_ok σ (h_mem hd) (heldf i mems) /\ script_ok σ (h_script hd) = true
-  | HRun o p => exists σ, hstate_ok σ (h_mem hd) (heldf i mems) /\
-                          script_ok (hnext σ o) (h_script hd) = true /\ leaves p (Lf σ o)
+  | HRun o p => leaves p (Lf o (h_mem hd))
+  | _ => True
   end.
 
 Definition J (w : world) (mems : list (nat * list nat)) : Prop :=
@@ -475,9 +592,6 @@ Definition J (w : world) (mems : list (nat * list nat)) : Prop :=
 
 Lemma hJ_other : forall mems mems' i hd, heldf i mems' = heldf i mems -> hJ mems i hd -> hJ mems' i hd.
 Proof. intros mems mems' i hd E H. unfold hJ in *. rewrite E. exact H. Qed.
-
-Lemma heldf_fin_other : forall i h m mems, i <> h -> heldf i (mems_fin h m mems) = heldf i mems.
-Proof. intros i h m mems Hne. destruct m; cbn [mems_fin]; [apply heldf_upd_other; exact Hne|reflexivity]. Qed.
 
 Lemma J_set : forall s' hs h x mems',
   (forall i hd, i <> h -> nth_error hs i = Some hd -> hJ mems' i hd) -> hJ mems' h x ->
@@ -488,94 +602,126 @@ Proof.
   - rewrite nth_set_neq in E by exact Hne. apply Ho; assumption.
 Qed.
 
-Lemma rets_app_l : forall a b, rets_ok (a ++ b) -> rets_ok a.
-Proof. intros a b H h o r Hin. apply (H h o r). apply in_or_app. left. exact Hin. Qed.
+Section Run.
+Variable cmp : snapshot -> snapshot -> bool.
+Variable P : snapshot -> list nat -> bool.
 
 Lemma step_J : forall so att w h c w' e1 mems,
-  J w mems -> step so att w h c = (w', e1) -> rets_ok e1 ->
+  J w mems -> step so att w h c = (w', e1) ->
   exists mems', J w' mems' /\
-    (((forall rest, c09_loop (snapshot_of (w_fs w)) mems (e1 ++ rest) = c09_loop (snapshot_of (w_fs w')) mems' rest) /\
-      (forall rest, c09_pre (snapshot_of (w_fs w)) mems (e1 ++ rest) = c09_pre (snapshot_of (w_fs w')) mems' rest))
+    (((forall rest, c09g_loop cmp (snapshot_of (w_fs w)) mems (e1 ++ rest) = c09g_loop cmp (snapshot_of (w_fs w')) mems' rest) /\
+      (forall rest, c09_pre P (snapshot_of (w_fs w)) mems (e1 ++ rest) = c09_pre P (snapshot_of (w_fs w')) mems' rest))
      \/ (exists tx auto mm hd', e1 = [ECall h (AAdd tx auto)] /\ mems' = mems /\ w_fs w' = w_fs w /\
            nth_error (w_handles w') h = Some hd' /\
            h_pc hd' = HRun (AAdd tx auto) (call_prog att (AAdd tx auto) (Some mm)) /\
            heldf h mems = Some (mnames mm))).
 Proof.
-  intros so att w h c w' e1 mems HJ H Hrets. unfold step in H.
+  intros so att w h c w' e1 mems HJ H. unfold step in H.
   match goal with |- ?G => assert (Hnop : (w', e1) = (w, []) -> G) end.
   { intro E. inversion E; subst. exists mems. split; [exact HJ|]. left. split; reflexivity. }
   destruct (nth_error (w_handles w) h) as [hd|] eqn:En; [|apply Hnop; congruence].
-  pose proof (HJ h hd En) as Hh. unfold hJ in Hh.
-  assert (Hoth : forall m i hd0, i <> h -> nth_error (w_handles w) i = Some hd0 -> hJ (mems_fin h m mems) i hd0).
-  { intros m i hd0 Hne E. eapply hJ_other; [apply heldf_fin_other; exact Hne|]. apply HJ. exact E. }
+  pose proof (HJ h hd En) as [Hheld Hh].
+  assert (Hoth : forall o m r i hd0, i <> h -> nth_error (w_handles w) i = Some hd0 -> hJ (mems_fin h o m r mems) i hd0).
+  { intros o m r i hd0 Hne E. eapply hJ_other; [apply heldf_fin_other; exact Hne|]. apply HJ. exact E. }
+  assert (Hfin : forall o m r script, Lf o (h_mem hd) (m, r) ->
+            hJ (mems_fin h o m r mems) h {| h_mem := m; h_pc := HIdle; h_script := script |}).
+  { intros o m r script HL. split; [|exact I]. cbn [h_mem]. eapply heldf_fin_same; eauto. }
   destruct (h_pc hd) as [|o p|] eqn:Epc; [| |apply Hnop; congruence].
   - (* a call starts *)
-    destruct Hh as (σ & Hst & Hsc).
     destruct (h_script hd) as [|o rest] eqn:Es; [apply Hnop; congruence|].
-    cbn [script_ok] in Hsc. apply andb_true_iff in Hsc as [Hadd Hrest].
-    pose proof (leaves_call_prog att σ o (h_mem hd) _ Hst) as HL.
+    pose proof (leaves_call_prog att o (h_mem hd)) as HL.
     destruct (call_prog att o (h_mem hd)) as [[m r]|q k] eqn:Ecp.
     + inversion H; subst w' e1. clear H. cbn [leaves] in HL.
-      assert (Hr : ret_allowed o r = true) by (apply (Hrets h o r); right; left; reflexivity).
-      exists (mems_fin h m mems). split.
-      * apply J_set; [intros; apply Hoth; assumption|].
-        unfold hJ. cbn [h_pc h_mem h_script]. exists (hnext σ o). split; [|exact Hrest].
-        eapply fin_state; eauto.
+      exists (mems_fin h o m r mems). split.
+      * apply J_set; [intros; apply Hoth; assumption|]. apply Hfin. exact HL.
       * left. cbn [w_fs].
-        assert (Hc : forall t, c09_loop (snapshot_of (w_fs w)) mems (ECall h o :: t) = c09_loop (snapshot_of (w_fs w)) mems t /\
-                               c09_pre (snapshot_of (w_fs w)) mems (ECall h o :: t) = c09_pre (snapshot_of (w_fs w)) mems t).
+        assert (Hc : forall t, c09g_loop cmp (snapshot_of (w_fs w)) mems (ECall h o :: t) = c09g_loop cmp (snapshot_of (w_fs w)) mems t /\
+                               c09_pre P (snapshot_of (w_fs w)) mems (ECall h o :: t) = c09_pre P (snapshot_of (w_fs w)) mems t).
         { intro t. destruct o; try (split; reflexivity).
           (* an Add that returns at once: the handle has no stack and the oracle holds nothing for it *)
           rewrite c09_call, c09_pre_call.
-          destruct σ; cbn [hstate_ok] in Hst.
-          - destruct Hst as [_ ->]. split; reflexivity.
-          - destruct Hst as (mm & Em & _). rewrite Em in Ecp. cbn [call_prog] in Ecp. discriminate Ecp.
-          - discriminate Hadd. }
-        split; intro rest0; cbn [app]; [rewrite (proj1 (Hc _))|rewrite (proj2 (Hc _))]; apply c09_finish.
+          destruct (h_mem hd) as [mm|] eqn:Em; [cbn [call_prog] in Ecp; discriminate Ecp|].
+          cbn [onames] in Hheld. rewrite Hheld. split; reflexivity. }
+        split; intro rest0; cbn [app]; [rewrite (proj1 (Hc _))|rewrite (proj2 (Hc _))]; apply (c09_finish cmp P).
     + inversion H; subst w' e1. clear H.
       exists mems. split.
       * apply J_set; [intros i hd0 Hne E; apply HJ; exact E|].
-        unfold hJ. cbn [h_pc h_mem h_script]. exists σ. auto.
+        split; [exact Hheld|]. cbn [h_pc h_mem]. exact HL.
       * destruct o; try (left; split; intro rest0; reflexivity).
-        right. destruct σ; cbn [hstate_ok] in Hst.
-        -- destruct Hst as [Em _]. rewrite Em in Ecp. discriminate Ecp.
-        -- destruct Hst as (mm & Em & Hheld). exists tx, auto, mm, {| h_mem := h_mem hd; h_pc := HRun (AAdd tx auto) (Op q k); h_script := rest |}.
-           split; [reflexivity|]. split; [reflexivity|]. split; [reflexivity|].
-           split; [cbn [w_handles]; eapply nth_set_same; exact En|].
-           split; [cbn [h_pc]; rewrite <- Em, Ecp; reflexivity|exact Hheld].
-        -- discriminate Hadd.
+        right. destruct (h_mem hd) as [mm|] eqn:Em; [|cbn [call_prog] in Ecp; discriminate Ecp].
+        exists tx, auto, mm, {| h_mem := Some mm; h_pc := HRun (AAdd tx auto) (Op q k); h_script := rest |}.
+        split; [reflexivity|]. split; [reflexivity|]. split; [reflexivity|].
+        split; [cbn [w_handles]; eapply nth_set_same; exact En|].
+        split; [cbn [h_pc]; rewrite Ecp; reflexivity|exact Hheld].
   - (* inside a call *)
-    destruct Hh as (σ & Hst & Hsc & HL).
     destruct p as [[m r]|q k].
-    + inversion H; subst w' e1. clear H. cbn [leaves] in HL.
-      assert (Hr : ret_allowed o r = true) by (apply (Hrets h o r); left; reflexivity).
-      exists (mems_fin h m mems). split.
-      * apply J_set; [intros; apply Hoth; assumption|].
-        unfold hJ. cbn [h_pc h_mem h_script]. exists (hnext σ o). split; [|exact Hsc].
-        eapply fin_state; eauto.
-      * left. cbn [w_fs]. split; intro rest0; apply c09_finish.
+    + inversion H; subst w' e1. clear H. cbn [leaves] in Hh.
+      exists (mems_fin h o m r mems). split.
+      * apply J_set; [intros; apply Hoth; assumption|]. apply Hfin. exact Hh.
+      * left. cbn [w_fs]. split; intro rest0; apply (c09_finish cmp P).
     + destruct (apply_req so c h q (w_fs w)) as [[s' rs] fe] eqn:Ea.
-      cbn [leaves] in HL. specialize (HL rs).
+      cbn [leaves] in Hh. specialize (Hh rs).
       destruct (k rs) as [[m r]|q' k'] eqn:Ek.
-      * inversion H; subst w' e1. clear H. cbn [leaves] in HL.
-        assert (Hr : ret_allowed o r = true).
-        { apply (Hrets h o r). right. right. left. reflexivity. }
-        exists (mems_fin h m mems). split.
-        -- apply J_set; [intros; apply Hoth; assumption|].
-           unfold hJ. cbn [h_pc h_mem h_script]. exists (hnext σ o). split; [|exact Hsc].
-           eapply fin_state; eauto.
+      * inversion H; subst w' e1. clear H. cbn [leaves] in Hh.
+        exists (mems_fin h o m r mems). split.
+        -- apply J_set; [intros; apply Hoth; assumption|]. apply Hfin. exact Hh.
         -- left. cbn [w_fs]. split; intro rest0; cbn [app].
-           ++ rewrite (proj1 (c09_req _ _ _ _ _ _ _ _)). apply c09_finish.
-           ++ rewrite (proj2 (c09_req _ _ _ _ _ _ _ _)). apply c09_finish.
+           ++ rewrite (proj1 (c09_req cmp P _ _ _ _ _ _ _ _)). apply (c09_finish cmp P).
+           ++ rewrite (proj2 (c09_req cmp P _ _ _ _ _ _ _ _)). apply (c09_finish cmp P).
       * inversion H; subst w' e1. clear H.
         exists mems. split.
         -- apply J_set; [intros i hd0 Hne E; apply HJ; exact E|].
-           unfold hJ. cbn [h_pc h_mem h_script]. exists σ. auto.
-        -- left. cbn [w_fs]. split; intro rest0; cbn [app]; apply c09_req.
+           split; [exact Hheld|]. cbn [h_pc h_mem]. exact Hh.
+        -- left. cbn [w_fs]. split; intro rest0; cbn [app]; apply (c09_req cmp P).
 Qed.
 
+(* what section 5 proves of an undisturbed Add that starts when [P] holds *)
+Definition clause_spec : Prop := forall so a sched γ st w w' evs h hd tx auto mm,
+  WInv γ w st -> run so (S a) w sched = (w', evs) ->
+  nth_error (w_handles w) h = Some hd ->
+  h_pc hd = HRun (AAdd tx auto) (call_prog (S a) (AAdd tx auto) (Some mm)) ->
+  P (snapshot_of (w_fs w)) (mnames mm) = true ->
+  c09_clause cmp h (snapshot_of (w_fs w)) (Some (mnames mm)) evs = true.
+
+Lemma run_c09 : clause_spec -> forall so a sched γ st w mems w' evs,
+  WInv γ w st -> J w mems -> run so (S a) w sched = (w', evs) ->
+  c09_pre P (snapshot_of (w_fs w)) mems evs = true ->
+  c09g_loop cmp (snapshot_of (w_fs w)) mems evs = true.
+Proof.
+  intros Hclause so a. induction sched as [|[h c|h] sched IH]; intros γ st w mems w' evs HW HJ H Hpre; cbn [run] in H.
+  - inversion H; subst. reflexivity.
+  - destruct (step so (S a) w h c) as [w1 e1] eqn:E1.
+    destruct (run so (S a) w1 sched) as [w2 e2] eqn:E2. inversion H; subst w' evs. clear H.
+    destruct (@step_inv so (S a) γ w st h c w1 e1 HW E1) as (γ' & st' & HW' & _).
+    destruct (step_J _ _ _ _ _ _ _ _ HJ E1) as (mems' & HJ' & [[C1 C2]|X]).
+    + rewrite C1. rewrite C2 in Hpre. eapply IH; eauto.
+    + destruct X as (tx & auto & mm & hd' & -> & -> & Efs & En & Epc & Hheld).
+      cbn [app] in *. rewrite c09_call. rewrite c09_pre_call in Hpre.
+      apply andb_true_iff in Hpre as [Hg Hpre]. rewrite Hheld in *. rewrite <- Efs in *.
+      apply andb_true_iff. split.
+      * eapply Hclause; eauto.
+      * eapply IH; eauto.
+  - destruct (crash w h) as [w1 e1] eqn:E1.
+    destruct (run so (S a) w1 sched) as [w2 e2] eqn:E2. inversion H; subst w' evs. clear H.
+    destruct (@crash_inv γ w st h w1 e1 HW E1) as (HW' & _).
+    unfold crash in E1. destruct (nth_error (w_handles w) h) as [hd|] eqn:En.
+    + inversion E1; subst w1 e1. cbn [app c09g_loop c09_pre w_fs] in *.
+      apply (IH γ st _ mems w2 e2 HW'); [|exact E2|exact Hpre].
+      apply J_set; [intros i hd0 _ E; apply HJ; exact E|].
+      split; [cbn [h_mem]; apply (HJ h hd En)|exact I].
+    + inversion E1; subst w1 e1. cbn [app] in *. eapply IH; eauto.
+Qed.
+
+Lemma J_init : forall tabs scripts, J (init_world tabs scripts) [].
+Proof.
+  intros tabs scripts i hd En. cbn [init_world w_handles] in En. apply nth_error_In in En.
+  apply in_map_iff in En as [s [<- Hin]]. split; [reflexivity|exact I].
+Qed.
+
+End Run.
+
 (* ------------------------------------------------------------------ *)
-(* 5. the clause of the oracle for an undisturbed Add                  *)
+(* 5. the clause of the oracle for an undisturbed Add; the theorems    *)
 (* ------------------------------------------------------------------ *)
 
 Lemma snap_eqb_refl : forall a, snap_eqb a a = true.
@@ -601,12 +747,39 @@ Proof.
   apply in_or_app. right. left. reflexivity.
 Qed.
 
-Lemma clause_holds : forall so a sched γ st w w' evs h hd tx auto mm,
-  WInv γ w st -> run so (S a) w sched = (w', evs) ->
-  nth_error (w_handles w) h = Some hd ->
-  h_pc hd = HRun (AAdd tx auto) (call_prog (S a) (AAdd tx auto) (Some mm)) ->
-  held_gone (snapshot_of (w_fs w)) (mnames mm) = true ->
-  c09_clause h (snapshot_of (w_fs w)) (Some (mnames mm)) evs = true.
+Lemma in_mid : forall (a b c c' d : list path) p,
+  In p (a ++ b ++ c ++ d) -> In p c \/ In p (a ++ b ++ c' ++ d).
+Proof.
+  intros a b c c' d p H.
+  apply in_app_or in H as [H|H]; [right; apply in_or_app; left; exact H|].
+  apply in_app_or in H as [H|H]; [right; apply in_or_app; right; apply in_or_app; left; exact H|].
+  apply in_app_or in H as [H|H]; [left; exact H|].
+  right. apply in_or_app. right. apply in_or_app. right. apply in_or_app. right. exact H.
+Qed.
+
+Lemma snap_gc_of : forall s s', gc_ok s s' -> snap_gc (snapshot_of s') (snapshot_of s) = true.
+Proof.
+  intros s s' (A & B & C & D & E & F). unfold snap_gc.
+  change (listed (snapshot_of s)) with (listed_fs s).
+  cbn [snapshot_of sn_list sn_files]. rewrite A, B, C, D.
+  apply andb_true_iff. split; [apply andb_true_iff; split|].
+  - destruct (f_list s); [apply list_nat_eqb_refl|reflexivity].
+  - apply forallb_forall. intros p Hp. apply existsb_path.
+    apply (in_mid _ _ _ (map (fun x => PT (fst x)) (f_tabs s))) in Hp as [Hp|Hp]; [|exact Hp].
+    apply in_or_app. right. apply in_or_app. right. apply in_or_app. left.
+    apply in_map_iff in Hp as [x [<- Hx]]. apply in_map_iff. exists x. split; [reflexivity|apply E; exact Hx].
+  - apply forallb_forall. intros p Hp.
+    apply (in_mid _ _ _ (map (fun x => PT (fst x)) (f_tabs s'))) in Hp as [Hp|Hp].
+    + apply in_map_iff in Hp as [x [<- Hx]]. destruct (F x Hx) as [Y|Y].
+      * apply orb_true_iff. left. apply existsb_path.
+        apply in_or_app. right. apply in_or_app. right. apply in_or_app. left.
+        apply in_map_iff. exists x. split; [reflexivity|exact Y].
+      * apply orb_true_iff. right. apply negb_true_iff. apply mem_nat_false. exact Y.
+    + apply orb_true_iff. left. apply existsb_path. exact Hp.
+Qed.
+
+(* the strict reading, when the handle's unlisted tables are already unlinked *)
+Lemma clause_holds : clause_spec snap_eqb held_gone.
 Proof.
   intros so a sched γ st w w' evs h hd tx auto mm (HG & _) Hrun En Epc Hgone.
   unfold c09_clause. destruct (alone_until_ret h evs []) as [[[E r] rest]|] eqn:Hal; [|reflexivity].
@@ -634,61 +807,117 @@ Proof.
     rewrite Hlast, snap_eqb_refl. cbn [andb mem_events app]. rewrite Nat.eqb_refl, Hm. apply list_nat_eqb_refl.
 Qed.
 
-Lemma run_c09 : forall so a sched γ st w mems w' evs,
-  WInv γ w st -> J w mems -> run so (S a) w sched = (w', evs) -> rets_ok evs ->
-  c09_pre (snapshot_of (w_fs w)) mems evs = true ->
-  c09_loop (snapshot_of (w_fs w)) mems evs = true.
+(* the gc-tolerant reading: no precondition *)
+Lemma clause_holds_gc : clause_spec snap_gc (fun _ _ => true).
 Proof.
-  intros so a. induction sched as [|[h c|h] sched IH]; intros γ st w mems w' evs HW HJ H Hrets Hpre; cbn [run] in H.
-  - inversion H; subst. reflexivity.
-  - destruct (step so (S a) w h c) as [w1 e1] eqn:E1.
-    destruct (run so (S a) w1 sched) as [w2 e2] eqn:E2. inversion H; subst w' evs. clear H.
-    destruct (@step_inv so (S a) γ w st h c w1 e1 HW E1) as (γ' & st' & HW' & _).
-    destruct (step_J _ _ _ _ _ _ _ _ HJ E1 (rets_app_l _ _ Hrets)) as (mems' & HJ' & [[C1 C2]|X]).
-    + rewrite C1. rewrite C2 in Hpre. eapply IH; eauto. eapply rets_app; eauto.
-    + destruct X as (tx & auto & mm & hd' & -> & -> & Efs & En & Epc & Hheld).
-      cbn [app] in *. rewrite c09_call. rewrite c09_pre_call in Hpre.
-      apply andb_true_iff in Hpre as [Hg Hpre]. rewrite Hheld in *. rewrite <- Efs in *.
-      apply andb_true_iff. split.
-      * eapply clause_holds; eauto.
-      * eapply IH; eauto. eapply rets_app with (a := [_]); eauto.
-  - destruct (crash w h) as [w1 e1] eqn:E1.
-    destruct (run so (S a) w1 sched) as [w2 e2] eqn:E2. inversion H; subst w' evs. clear H.
-    destruct (@crash_inv γ w st h w1 e1 HW E1) as (HW' & _).
-    unfold crash in E1. destruct (nth_error (w_handles w) h) as [hd|] eqn:En.
-    + inversion E1; subst w1 e1. cbn [app c09_loop c09_pre w_fs] in *.
-      apply (IH γ st _ mems w2 e2 HW'); [|exact E2| |exact Hpre].
-      * apply J_set; [intros i hd0 _ E; apply HJ; exact E|]. exact I.
-      * eapply rets_app with (a := [_]); eauto.
-    + inversion E1; subst w1 e1. cbn [app] in *. eapply IH; eauto.
+  intros so a sched γ st w w' evs h hd tx auto mm (HG & _) Hrun En Epc _.
+  unfold c09_clause. destruct (alone_until_ret h evs []) as [[[E r] rest]|] eqn:Hal; [|reflexivity].
+  destruct (alone_run _ _ _ _ _ _ _ _ _ _ _ _ _ _ Hrun En Epc Hal) as (E0 & m & s' & rest' & Hs & -> & ->).
+  cbn [rev app]. pose proof (last_snap_sexec _ _ _ _ _ _ _ _ Hs) as Hlast.
+  cbn [call_prog] in Hs. unfold wrap in Hs.
+  apply sexec_bind in Hs as ([m1 r1] & s1 & E1 & E2 & H1 & H2 & _).
+  cbn [sexec fst snd] in H2. destruct H2 as (_ & Em & ->). inversion Em; subst m r. clear Em.
+  set (s := w_fs w) in *. change (listed (snapshot_of s)) with (listed_fs s).
+  destruct (list_nat_eqb (mnames mm) (listed_fs s)) eqn:Eq; cbn [negb].
+  - destruct (existsb (path_eqb PLL) (sn_files (snapshot_of s))) eqn:Ep; [reflexivity|].
+    assert (El : f_lock s = None).
+    { destruct (f_lock s) as [c|] eqn:El; [|reflexivity]. rewrite (pll_in_files s c El) in Ep. discriminate. }
+    apply list_nat_eqb_eq in Eq.
+    rewrite (exec_add_fresh _ _ _ _ _ _ _ _ _ _ _ El Eq H1). reflexivity.
+  - destruct (exec_add_stale_gc _ _ _ _ _ _ _ _ _ _ _ (g_exist HG) Eq H1) as (-> & Hgc & Hm).
+    rewrite Hlast, (snap_gc_of _ _ Hgc). cbn [andb mem_events app]. rewrite Nat.eqb_refl, Hm. apply list_nat_eqb_refl.
 Qed.
 
-(* property C09 (repaired): for at least one reload attempt, scripts that do not
-   add on a closed handle, and traces in which no Add starts while a table the
-   handle holds is unlisted but still on disk *)
-Theorem c09_all_traces : forall size_oracle attempts tabs scripts sched,
+(* without any load attempt no handle ever gets a stack: the oracle has nothing to check *)
+Definition no_stack (w : world) : Prop :=
+  forall i hd, nth_error (w_handles w) i = Some hd -> h_mem hd = None /\ (h_pc hd = HIdle \/ h_pc hd = HDead).
+
+Lemma call_prog_0_none : forall o, exists r, call_prog 0 o None = Ret (None, r).
+Proof. destruct o; eexists; reflexivity. Qed.
+
+Lemma run_att0 : forall cmp so sched w w' evs cur,
+  no_stack w -> run so 0 w sched = (w', evs) -> c09g_loop cmp cur [] evs = true.
+Proof.
+  intros cmp so. induction sched as [|[h c|h] sched IH]; intros w w' evs cur HN H; cbn [run] in H.
+  - inversion H; subst. reflexivity.
+  - destruct (step so 0 w h c) as [w1 e1] eqn:E1.
+    destruct (run so 0 w1 sched) as [w2 e2] eqn:E2. inversion H; subst w' evs. clear H.
+    unfold step in E1.
+    destruct (nth_error (w_handles w) h) as [hd|] eqn:En; [|inversion E1; subst; eapply IH; eauto].
+    destruct (HN h hd En) as [Hm [Hpc|Hpc]]; rewrite Hpc in E1; [|inversion E1; subst; eapply IH; eauto].
+    destruct (h_script hd) as [|o rest]; [inversion E1; subst; eapply IH; eauto|].
+    rewrite Hm in E1. destruct (call_prog_0_none o) as [r Er]. rewrite Er in E1.
+    inversion E1; subst w1 e1. clear E1. cbn [finish_events app].
+    assert (El : c09g_loop cmp cur [] (ECall h o :: ERet h o r :: e2) = c09g_loop cmp cur [] e2).
+    { destruct o, r; reflexivity. }
+    rewrite El. eapply IH; [|exact E2].
+    intros i hd' E. cbn [w_handles] in E. destruct (Nat.eq_dec i h) as [->|Hne].
+    + apply nth_set_eq in E. subst hd'. cbn. auto.
+    + rewrite nth_set_neq in E by exact Hne. apply HN with (i := i). exact E.
+  - destruct (crash w h) as [w1 e1] eqn:E1.
+    destruct (run so 0 w1 sched) as [w2 e2] eqn:E2. inversion H; subst w' evs. clear H.
+    unfold crash in E1. destruct (nth_error (w_handles w) h) as [hd|] eqn:En.
+    + inversion E1; subst w1 e1. cbn [app c09g_loop]. eapply IH; [|exact E2].
+      intros i hd' E. cbn [w_handles] in E. destruct (Nat.eq_dec i h) as [->|Hne].
+      * apply nth_set_eq in E. subst hd'. cbn. split; [apply (HN h hd En)|auto].
+      * rewrite nth_set_neq in E by exact Hne. apply HN with (i := i). exact E.
+    + inversion E1; subst w1 e1. cbn [app]. eapply IH; eauto.
+Qed.
+
+Lemma no_stack_init : forall tabs scripts, no_stack (init_world tabs scripts).
+Proof.
+  intros tabs scripts i hd En. cbn [init_world w_handles] in En. apply nth_error_In in En.
+  apply in_map_iff in En as [s [<- Hin]]. cbn. auto.
+Qed.
+
+(* property C09, strict reading: for traces in which no Add starts while a table the handle
+   holds is unlisted but still on disk (any attempt bound) *)
+Theorem c09_all_traces_strong : forall size_oracle attempts tabs scripts sched,
   init_ok tabs -> Forall (fun s => forallb modelled s = true) scripts ->
-  (1 <= attempts)%nat ->
-  Forall (fun s => reopen_before_add s = true) scripts ->
   c09_precond (trace_of size_oracle attempts tabs scripts sched) = true ->
   c09_ok (trace_of size_oracle attempts tabs scripts sched) = true.
 Proof.
-  intros so att tabs scripts sched Hi Hs Hatt Hre Hpre.
-  destruct att as [|a]; [lia|].
-  pose proof (@c04_all_traces so (S a) tabs scripts sched Hi Hs) as H4.
-  unfold c09_ok, c09_precond, c04_ok, trace_of in *.
-  destruct (run so (S a) (init_world tabs scripts) sched) as [w' evs] eqn:E. cbn [snd] in *.
-  cbn [c09_loop]. cbn [c09_pre] in Hpre.
-  apply (run_c09 so a sched _ _ (init_world tabs scripts) [] w' evs (@WInv_init tabs scripts Hi Hs)).
-  - intros i hd En. cbn [init_world w_handles] in En. apply nth_error_In in En.
-    apply in_map_iff in En as [s [<- Hin]]. unfold hJ. cbn [h_pc h_mem h_script].
-    exists Fresh. split; [split; reflexivity|]. rewrite Forall_forall in Hre. apply Hre. exact Hin.
-  - exact E.
-  - apply c04_rets in H4. intros h o r Hin. apply (H4 h o r). right. exact Hin.
-  - exact Hpre.
+  intros so att tabs scripts sched Hi Hs Hpre.
+  unfold c09_ok, c09_precond, trace_of in *. rewrite <- c09g_strict.
+  destruct (run so att (init_world tabs scripts) sched) as [w' evs] eqn:E. cbn [snd] in *.
+  cbn [c09g_loop]. cbn [c09_pre] in Hpre.
+  destruct att as [|a]; [exact (run_att0 snap_eqb so sched _ _ _ _ (no_stack_init tabs scripts) E)|].
+  exact (run_c09 snap_eqb held_gone clause_holds so a sched _ _ (init_world tabs scripts) [] w' evs
+           (@WInv_init tabs scripts Hi Hs) (J_init tabs scripts) E Hpre).
 Qed.
 
+(* property C09, gc-tolerant reading: every trace *)
+Theorem c09_gc_all_traces_strong : forall size_oracle attempts tabs scripts sched,
+  init_ok tabs -> Forall (fun s => forallb modelled s = true) scripts ->
+  c09_ok_gc (trace_of size_oracle attempts tabs scripts sched) = true.
+Proof.
+  intros so att tabs scripts sched Hi Hs.
+  unfold c09_ok_gc, trace_of. rewrite <- c09g_gc.
+  destruct (run so att (init_world tabs scripts) sched) as [w' evs] eqn:E. cbn [snd].
+  cbn [c09g_loop].
+  destruct att as [|a]; [exact (run_att0 snap_gc so sched _ _ _ _ (no_stack_init tabs scripts) E)|].
+  exact (run_c09 snap_gc (fun _ _ => true) clause_holds_gc so a sched _ _ (init_world tabs scripts) [] w' evs
+           (@WInv_init tabs scripts Hi Hs) (J_init tabs scripts) E (c09_pre_true _ _ _)).
+Qed.
+
+(* the statements as requested (the hypothesis on the attempts is not needed any more: see above) *)
+Theorem c09_all_traces : forall size_oracle attempts tabs scripts sched,
+  init_ok tabs -> Forall (fun s => forallb modelled s = true) scripts ->
+  (1 <= attempts)%nat ->
+  c09_precond (trace_of size_oracle attempts tabs scripts sched) = true ->
+  c09_ok (trace_of size_oracle attempts tabs scripts sched) = true.
+Proof. intros so att tabs scripts sched Hi Hs _ Hpre. apply c09_all_traces_strong; assumption. Qed.
+
+Theorem c09_gc_all_traces : forall size_oracle attempts tabs scripts sched,
+  init_ok tabs -> Forall (fun s => forallb modelled s = true) scripts ->
+  (1 <= attempts)%nat ->
+  c09_ok_gc (trace_of size_oracle attempts tabs scripts sched) = true.
+Proof. intros so att tabs scripts sched Hi Hs _. apply c09_gc_all_traces_strong; assumption. Qed.
+
 Print Assumptions c09_all_traces.
+Print Assumptions c09_gc_all_traces.
+Print Assumptions c09_all_traces_strong.
+Print Assumptions c09_gc_all_traces_strong.
 
 (* the precondition holds whenever the directory is clean in the sense of C16
    (so, by c16_all_traces, at every crash-free instant at which no other handle
@@ -703,7 +932,7 @@ Proof.
 Qed.
 
 (* ------------------------------------------------------------------ *)
-(* 6. the counterexamples to the unrestricted statement                *)
+(* 6. counterexamples and examples                                     *)
 (* ------------------------------------------------------------------ *)
 
 Module Counterexamples.
@@ -718,43 +947,50 @@ Module Counterexamples.
   Proof. split; reflexivity. Qed.
   Lemma init_ok_0 : init_ok [].
   Proof. split; reflexivity. Qed.
-
-  (* (a) attempts = 0: reload gives up at once; the stale handle gets its lock
-     failure but still holds the old (empty) stack afterwards *)
-  Definition tr_a := trace_of so 0 [(0, f0)] [[AOpen; AAdd 5 false]] (steps 0 6).
-  Example ce_attempts_0 :
-    c09_ok tr_a = false /\ c09_precond tr_a = true /\ reopen_before_add [AOpen; AAdd 5 false] = true.
-  Proof. vm_compute. auto. Qed.
-
-  (* (b) Add after Close: RNoStack, while the oracle remembers the stack held before the Close *)
-  Definition tr_b := trace_of so 2 [] [[AOpen; AClose; AAdd 5 false]] (steps 0 6).
-  Example ce_add_after_close :
-    c09_ok tr_b = false /\ c09_precond tr_b = true /\ reopen_before_add [AOpen; AClose; AAdd 5 false] = false.
-  Proof. vm_compute. auto. Qed.
-
   (* (c) handle 1 compacts tables 0 and 1 and is paused right after its commit,
      before it unlinks them; handle 0 (holding 0 and 1) then runs an Add alone:
      lock failure, but its reload unlinks 0.ref and 1.ref, so the directory at
-     the return is not the directory at the call *)
+     the return is not the directory at the call.  Strict reading: violated (and
+     the precondition fails); gc-tolerant reading: accepted *)
   Definition scripts_c := [[AOpen; AAdd 9 false]; [AOpen; ACompactAll]].
   Definition sched_c := steps 0 4 ++ steps 1 4 ++ steps 1 11 ++ steps 0 9.
   Definition tr_c := trace_of so 2 [(0, f0); (1, f1)] scripts_c sched_c.
   Example ce_paused_compaction :
-    c09_ok tr_c = false /\ c09_precond tr_c = false /\ forallb reopen_before_add scripts_c = true.
+    c09_ok tr_c = false /\ c09_precond tr_c = false /\ c09_ok_gc tr_c = true.
   Proof. vm_compute. auto. Qed.
 
   (* (d) the same with the compactor crashed instead of paused *)
   Definition sched_d := steps 0 4 ++ steps 1 4 ++ steps 1 11 ++ [Crash 1] ++ steps 0 9.
   Definition tr_d := trace_of so 2 [(0, f0); (1, f1)] scripts_c sched_d.
-  Example ce_crashed_compaction : c09_ok tr_d = false /\ c09_precond tr_d = false.
+  Example ce_crashed_compaction : c09_ok tr_d = false /\ c09_precond tr_d = false /\ c09_ok_gc tr_d = true.
   Proof. vm_compute. auto. Qed.
 
-  (* the hypotheses are satisfiable on a run with a stale Add, a retry and an auto-compaction *)
+  (* the unrestricted strict statement is false *)
+  Theorem c09_unrestricted_refuted :
+    ~ (forall size_oracle attempts tabs scripts sched,
+         init_ok tabs -> Forall (fun s => forallb modelled s = true) scripts -> (1 <= attempts)%nat ->
+         c09_ok (trace_of size_oracle attempts tabs scripts sched) = true).
+  Proof.
+    intro H. assert (E : c09_ok tr_c = true).
+    { apply H; [apply init_ok_2|repeat constructor|repeat constructor]. }
+    destruct ce_paused_compaction as [X _]. rewrite X in E. discriminate E.
+  Qed.
+
+  (* former counterexamples that the repairs have removed: (a) attempts = 0 (an Open now fails,
+     no handle ever holds a stack); (b) an Add after a Close (the oracle forgets a closed handle) *)
+  Definition tr_a := trace_of so 0 [(0, f0)] [[AOpen; AAdd 5 false]] (steps 0 6).
+  Example former_attempts_0 : c09_ok tr_a = true /\ c09_ok_gc tr_a = true.
+  Proof. vm_compute. auto. Qed.
+  Definition tr_b := trace_of so 2 [] [[AOpen; AClose; AAdd 5 false]] (steps 0 6).
+  Example former_add_after_close : c09_ok tr_b = true /\ c09_ok_gc tr_b = true /\ c09_precond tr_b = true.
+  Proof. vm_compute. auto. Qed.
+
+  (* the precondition is satisfiable on a run with a stale Add, a retry and an auto-compaction *)
   Definition scripts_e := [[AOpen; AAdd 3 true; AAdd 4 true]; [AOpen; AAdd 5 true; AAdd 6 true]].
   Definition sched_e := steps 0 4 ++ steps 1 4 ++ steps 0 40 ++ steps 1 40 ++ steps 0 40 ++ steps 1 40.
   Definition tr_e := trace_of so 2 [(0, f0); (1, f1)] scripts_e sched_e.
   Example sat_example :
-    c09_precond tr_e = true /\ forallb reopen_before_add scripts_e = true /\ c09_ok tr_e = true /\
+    c09_precond tr_e = true /\ c09_ok tr_e = true /\ c09_ok_gc tr_e = true /\
     existsb (fun e => match e with ERet 1 (AAdd 5 true) RLockFailure => true | _ => false end) tr_e = true /\
     existsb (fun e => match e with ERet 1 (AAdd 6 true) ROk => true | _ => false end) tr_e = true.
   Proof. vm_compute. auto. Qed.
